@@ -977,18 +977,14 @@ Theorem C16_zsh_space_in_name_refuted :
   exists s, zsh_script bl0 zs_root cd0 = Some s /\ ~ sublist [45; 120; 91] s.
 Proof. exact zsh_space_in_name_refuted. Qed.
 Print Assumptions C16_zsh_space_in_name_refuted.
-(** the same for the command tree AS THE USER WROTE IT ([Complete/ZshBuildProofs.v]): [binless c] = no subcommand carries an
-    explicit bin name (no spec format sets one).  [Command::build] then yields a [linked] tree with the bin name ... *)
+(** the same for the command tree AS THE USER WROTE IT ([Complete/ZshBuildProofs.v]): [BuildLinked.nb c] = no subcommand carries
+    an explicit bin name (no spec format sets one).  [Command::build] then yields a [linked] tree with the bin name
+    ([C16_build_linked]; the second proof of that statement, [C16_zsh_build_linked], is gone), so [generate]
+    (= [set_bin_name] + [build] + generator) writes a script for EVERY such tree, every assignment of texts and every
+    non-empty bin name: [build] does not run out of fuel, no [expect] fires, the recursion ends *)
 From ClapModel Require Import Complete.ZshBuildProofs.
-Theorem C16_zsh_build_linked : forall c bin b,
-  binless c = true -> bin <> [] -> build (set_bin_name c bin) = Some b -> c_bin b = Some bin /\ linked b.
-Proof. exact build_linked. Qed.
-Print Assumptions C16_zsh_build_linked.
-
-(** ... so [generate] (= [set_bin_name] + [build] + generator) writes a script for EVERY such tree, every assignment of
-    texts and every non-empty bin name: [build] does not run out of fuel, no [expect] fires, the recursion ends *)
 Theorem C16_zsh_generate_total : forall bl c d bin,
-  binless c = true -> bin <> [] -> exists s, generate_zsh bl c d bin = Some s.
+  BuildLinked.nb c = true -> bin <> [] -> exists s, generate_zsh bl c d bin = Some s.
 Proof. exact generate_zsh_total. Qed.
 Print Assumptions C16_zsh_generate_total.
 
@@ -1007,3 +1003,87 @@ Theorem C16_zsh_conflicts_list : forall bl c a g,
 Proof. exact conflicts_list. Qed.
 Print Assumptions C16_zsh_conflicts_list.
 (* ---- end zsh generator model ---- *)
+
+(* ---- Command::build and the tree the user wrote (round 3) ---- *)
+(** [Complete/BuildSkeleton.v].  [erase] keeps names, aliases (with visibility) and shape of a tree.  The names of the BUILT tree
+    are a structural function [bskel] of the tree the user wrote -- the fuelled recursion of [_build_recursive] disappears:
+    the same names and aliases, plus, below every command that has subcommands and for which DisableHelpSubcommand is not in
+    force (on the command, globally on it, or globally on an ancestor: the flag [g]), the generated [help] subcommand whose
+    subtree repeats the NAMES of the siblings ([hcopy]: no aliases) followed by [help] *)
+From ClapModel Require Complete.BuildSkeleton.
+Theorem C16_build_skeleton : forall c bin b,
+  build (set_bin_name c bin) = Some b -> BuildSkeleton.erase b = BuildSkeleton.bskel false c.
+Proof. exact BuildSkeleton.generate_skeleton. Qed.
+Print Assumptions C16_build_skeleton.
+
+Theorem C16_build_skeleton_shape : forall g c,
+  BuildSkeleton.bskel g c =
+  mkCmd (c_name c) (c_aliases c) []
+    (map (BuildSkeleton.bskel (g || s_dhs (c_gset c))) (c_subs c)
+     ++ (if g || s_dhs (c_set c) || s_dhs (c_gset c) || is_nil (c_subs c) then []
+         else [mkCmd BuildSkeleton.help_name [] []
+                 (map BuildSkeleton.hcopy (c_subs c) ++ [mkCmd BuildSkeleton.help_name [] [] [] None false false sets0 sets0])
+                 None false false sets0 sets0]))
+    None false false sets0 sets0.
+Proof. exact BuildSkeleton.bskel_unfold. Qed.
+Print Assumptions C16_build_skeleton_shape.
+
+(** so [build] keeps sibling names and aliases pairwise distinct (clap's own configuration check on the user's tree) when no
+    subcommand is named or aliased [help] where clap generates one ([help_free]: a boolean, structural in the user's tree) ... *)
+Theorem C16_build_siblings_ok : forall c bin b,
+  build (set_bin_name c bin) = Some b -> siblings_ok c -> BuildSkeleton.help_free false c = true -> siblings_ok b.
+Proof. exact BuildSkeleton.build_siblings_ok. Qed.
+Print Assumptions C16_build_siblings_ok.
+
+(** ... and every class of subcommand names that contains [help] ([dd_safe] of the bash theorems, "no blank" of zsh) *)
+Theorem C16_build_names : forall Q c bin b,
+  Q BuildSkeleton.help_name = true -> build (set_bin_name c bin) = Some b ->
+  (forall n, desc c n -> Q (c_name n) = true) -> (forall n, desc b n -> Q (c_name n) = true).
+Proof. exact BuildSkeleton.build_names. Qed.
+Print Assumptions C16_build_names.
+
+(** [build] only ADDS: every command the user wrote is in the built tree under the same name and aliases, with all its
+    arguments (the same records) and all its subcommands ([extends], an inductive relation) ... *)
+Theorem C16_build_extends : forall c bin b, build (set_bin_name c bin) = Some b -> BuildSkeleton.extends c b.
+Proof. exact BuildSkeleton.generate_extends. Qed.
+Print Assumptions C16_build_extends.
+
+(** ... so every path of names or visible aliases of the USER's tree is a path of the built tree, to the built image of the
+    same command, which has every argument and, under the same words, every subcommand of the user's command *)
+Theorem C16_user_paths_are_built_paths : forall c ws ns n,
+  reach c ws ns n -> forall b, BuildSkeleton.extends c b -> exists n', reach b ws ns n' /\ BuildSkeleton.extends n n'.
+Proof. exact BuildSkeleton.reach_extends. Qed.
+Print Assumptions C16_user_paths_are_built_paths.
+
+Theorem C16_extends_node : forall n n', BuildSkeleton.extends n n' ->
+  (forall a, In a (c_args n) -> In a (c_args n')) /\
+  (forall sc w, In sc (c_subs n) -> In w (get_name_and_visible_aliases sc) ->
+     exists sb, In sb (c_subs n') /\ In w (get_name_and_visible_aliases sb) /\ BuildSkeleton.extends sc sb).
+Proof. exact BuildSkeleton.extends_node. Qed.
+Print Assumptions C16_extends_node.
+
+(** zsh: the class [zsh_ok] of the exact-lookup, dispatch and coverage theorems holds for the tree [generate] builds from a user
+    tree with distinct sibling names and aliases, no blank in a subcommand name, no explicit bin names, no subcommand called
+    [help] where clap generates one -- those theorems speak about the file [generate_zsh] writes *)
+Theorem C16_zsh_build_ok : forall c bin b,
+  BuildLinked.nb c = true -> bin <> [] -> nospace c -> siblings_ok c -> BuildSkeleton.help_free false c = true ->
+  build (set_bin_name c bin) = Some b -> zsh_ok b bin.
+Proof. exact build_zsh_ok. Qed.
+Print Assumptions C16_zsh_build_ok.
+
+Theorem C16_zsh_generate_ok : forall bl c d bin,
+  BuildLinked.nb c = true -> bin <> [] -> nospace c -> siblings_ok c -> BuildSkeleton.help_free false c = true ->
+  exists b s, build (set_bin_name c bin) = Some b /\ zsh_ok b bin /\
+              generate_zsh bl c d bin = Some s /\ zsh_script bl b (dbuild (set_bin_name c bin) d) = Some s.
+Proof. exact generate_zsh_ok. Qed.
+Print Assumptions C16_zsh_generate_ok.
+
+(** satisfiable: the tree of [C16_zsh_ok_nonvacuous] as a user writes it (no bin names); the built tree has the path [a x]
+    through the alias, with the user's option, and the generated [help add x] *)
+Theorem C16_zsh_generate_ok_nonvacuous :
+  BuildLinked.nb zx_user = true /\ nospace zx_user /\ siblings_ok zx_user /\ BuildSkeleton.help_free false zx_user = true /\
+  exists b n m, build (set_bin_name zx_user [112]) = Some b /\
+    reach b [[97]; [120]] [[97; 100; 100]; [120]] n /\ In zx_opt (c_args n) /\
+    reach b [[104; 101; 108; 112]; [97; 100; 100]; [120]] [[104; 101; 108; 112]; [97; 100; 100]; [120]] m.
+Proof. exact generate_zsh_ok_example. Qed.
+Print Assumptions C16_zsh_generate_ok_nonvacuous.
